@@ -3,7 +3,7 @@
  "name": "file_write",
  "props": ["C09"],
  "level": "U",
- "tier": "wip",
+ "tier": "quick",
  "harness": "h_file_write",
  "enforce": ["ext2fs_file_write"],
  "replace": ["sync_buffer_position", "load_buffer", "ext2fs_file_set_size2"],
@@ -11,7 +11,7 @@
  "functions": ["lib/ext2fs/fileio.c:ext2fs_file_write"],
  "assumes": ["blocksize 1024; not an inline-data file; EXT2_FLAG_SHARE_DUP off (the deduplicating write path is not covered)",
              "the file's content is seen THROUGH THE HANDLE: ghost offset G has content g_byte; the one-block buffer is coherent on entry (VALID and blockno == G / bs  =>  buf[G % bs] == g_byte)",
-             "sync_buffer_position / load_buffer replaced by ASSUMED contracts of the buffer protocol: sync sets blockno = pos / bs, drops VALID when the block changes and (by flushing) keeps the content; load_buffer sets VALID, leaves a valid buffer alone, otherwise looks the physical block up and (unless dontfill) fills the buffer with the block's current content",
+             "sync_buffer_position / load_buffer replaced by the contracts of file_proto.h (proved by units buffer_sync / buffer_load): sync sets blockno = pos / bs, drops VALID when the block changes and (by flushing) keeps the content; load_buffer sets VALID, leaves a valid buffer alone, otherwise looks the physical block up and (unless dontfill) fills the buffer with the block's current content",
              "ext2fs_file_set_size2 replaced by the part of its contract used here (success => i_size == size; unit file_set_size2); ext2fs_bmap2 is a stub (BMAP_ALLOC yields a non-zero block or fails)",
              "libc memcpy modelled in the unit: bounds ASSERTED at every call, faithful at the tracked buffer byte",
              "caller's buffer has exactly nbytes bytes, nbytes <= 4096",
@@ -62,8 +62,9 @@ int g_bmap_flags;
 struct blk1k { unsigned char b[1024]; };
 #define INRANGE(lo, hi) (g_G >= (lo) && g_G < (hi))
 #define SRCBYTE (g_src[g_G - g_pos0])
-/* the buffer agrees with the file's content at the ghost offset */
-#define COHERENT(file) (!(((file)->flags & EXT2_FILE_BUF_VALID) && (file)->blockno == g_G / BS) || (unsigned char)(file)->buf[g_G % BS] == g_byte)
+/* COHERENT (file_proto.h): the buffer agrees with the file's content at the ghost offset; the invariant text needs it
+ * before the real file is included */
+#define EARLY_COHERENT(file) (!(((file)->flags & EXT2_FILE_BUF_VALID) && (file)->blockno == g_G / BS) || (unsigned char)(file)->buf[g_G % BS] == g_byte)
 
 /* the block that received the last byte is the buffered one, valid, DIRTY, and has a physical block (real inodes) */
 #define LASTBLK_OK(file) ((file)->blockno == ((file)->pos - 1) / BS && ((file)->flags & EXT2_FILE_BUF_VALID) && \
@@ -76,7 +77,7 @@ struct blk1k { unsigned char b[1024]; };
 	__CPROVER_loop_invariant(g_mc_bad == 0 && new_block == 0 && old_block == 0) \
 	/* bytes written so far have the caller's value, all others their old one */ \
 	__CPROVER_loop_invariant(INRANGE(LE(file->pos), file->pos) ? g_byte == SRCBYTE : g_byte == g_byte0) \
-	__CPROVER_loop_invariant(COHERENT(file)) \
+	__CPROVER_loop_invariant(EARLY_COHERENT(file) && (!(file->flags & EXT2_FILE_BUF_DIRTY) || (file->flags & EXT2_FILE_BUF_VALID))) \
 	/* a block that received data has a physical block */ \
 	__CPROVER_loop_invariant(count == 0 || LASTBLK_OK(file)) \
 	__CPROVER_decreases(nbytes)
@@ -112,26 +113,7 @@ errcode_t ext2fs_bmap2(ext2_filsys fs, ext2_ino_t ino, struct ext2_inode *inode,
 }
 
 #define CH(i) (IN.choice[(i) % 6])
-static errcode_t sync_buffer_position(ext2_file_t file)
-	REQUIRES(COHERENT(file))
-	ASSIGNS(file->blockno, file->flags, file->physblock, g_ci)
-	ENSURES(g_ci == OLD(g_ci) + 1 && RET == (CH(OLD(g_ci)) ? EXT2_ET_SHORT_WRITE : 0))
-	ENSURES(RET != 0 || file->blockno == file->pos / BS)
-	/* same block: nothing changes; another block: flushed (content kept) and the buffer no longer valid */
-	ENSURES(RET != 0 || (OLD(file->blockno) == file->pos / BS ? (file->flags == OLD(file->flags) && file->physblock == OLD(file->physblock)) :
-			     file->flags == (OLD(file->flags) & ~(EXT2_FILE_BUF_VALID | EXT2_FILE_BUF_DIRTY))))
-	ENSURES(RET == 0 || (file->blockno == OLD(file->blockno) && file->flags == OLD(file->flags) && file->physblock == OLD(file->physblock)));
-
-static errcode_t load_buffer(ext2_file_t file, int dontfill)
-	REQUIRES(file->fs->blocksize == BS && COHERENT(file))
-	ASSIGNS(file->flags, file->physblock, g_ci, *(struct blk1k *)file->buf)
-	ENSURES(g_ci == OLD(g_ci) + 1 && RET == (CH(OLD(g_ci)) ? EXT2_ET_SHORT_READ : 0))
-	ENSURES(RET != 0 || file->flags == (OLD(file->flags) | EXT2_FILE_BUF_VALID))
-	ENSURES(RET == 0 || file->flags == OLD(file->flags))
-	/* a valid buffer is left alone; otherwise the block is looked up and (unless dontfill) read */
-	ENSURES(!(OLD(file->flags) & EXT2_FILE_BUF_VALID) || (file->physblock == OLD(file->physblock) &&
-		(unsigned char)file->buf[g_G % BS] == OLD((unsigned char)file->buf[g_G % BS])))
-	ENSURES(RET != 0 || (OLD(file->flags) & EXT2_FILE_BUF_VALID) || dontfill || file->blockno != g_G / BS || (unsigned char)file->buf[g_G % BS] == g_byte);
+#include "file_proto.h"
 
 errcode_t ext2fs_file_set_size2(ext2_file_t file, ext2_off64_t size)
 	ASSIGNS(file->inode.i_size, file->inode.i_size_high, g_ci, g_ss_calls, g_ss_size)
@@ -141,7 +123,7 @@ errcode_t ext2fs_file_set_size2(ext2_file_t file, ext2_off64_t size)
 errcode_t ext2fs_file_write(ext2_file_t file, const void *buf, unsigned int nbytes, unsigned int *written)
 	REQUIRES(file->fs->blocksize == BS && !(file->inode.i_flags & EXT4_INLINE_DATA_FL) && !(file->fs->flags & EXT2_FLAG_SHARE_DUP))
 	REQUIRES(g_pos0 == file->pos && g_nbytes0 == nbytes && g_src == (const unsigned char *)buf && g_file == file && g_byte0 == g_byte && g_mc_bad == 0)
-	REQUIRES(g_ss_calls == 0 && COHERENT(file))
+	REQUIRES(g_ss_calls == 0 && COHERENT(file) && DIRTY_IMPLIES_VALID(file))
 	REQUIRES(ISIZE(file) <= (1ULL << 48) && file->pos <= (1ULL << 48))
 	ASSIGNS(file->pos, file->blockno, file->flags, file->physblock, file->inode.i_size, file->inode.i_size_high,
 		g_ci, g_mc_bad, g_bmap_calls, g_bmap_blk, g_bmap_flags, g_byte, g_ss_calls, g_ss_size;
@@ -158,6 +140,7 @@ errcode_t ext2fs_file_write(ext2_file_t file, const void *buf, unsigned int nbyt
 	ENSURES(!INRANGE(g_pos0, file->pos) || g_byte == SRCBYTE)
 	ENSURES(INRANGE(g_pos0, g_pos0 + g_nbytes0) || g_byte == g_byte0)
 	ENSURES(COHERENT(file) && g_mc_bad == 0)
+	ENSURES(file->magic != EXT2_ET_MAGIC_EXT2_FILE || DIRTY_IMPLIES_VALID(file))
 	/* the last block written sits in the buffer, marked dirty, with a physical block behind it */
 	ENSURES(RET != 0 || file->pos == g_pos0 || LASTBLK_OK(file))
 	/* the file is at least as long as the new position (or the size update failed and says so) */
@@ -183,7 +166,7 @@ void h_file_write(void)
 	g_G = IN.G; g_byte = g_byte0 = IN.byte; g_pos0 = IN.pos; g_nbytes0 = IN.nbytes; g_src = src; g_file = &F;
 	if (g_G >= g_pos0 && g_G < g_pos0 + g_nbytes0) src[g_G - g_pos0] = IN.srcbyte;
 	F.buf[g_G % BS] = IN.bufbyte;
-	ASSUME(COHERENT(&F));
+	ASSUME(COHERENT(&F) && DIRTY_IMPLIES_VALID(&F));
 	g_ci = g_mc_bad = g_bmap_calls = g_ss_calls = 0;
 	unsigned int written = 7777;
 
